@@ -9,7 +9,7 @@
     the byte stream (bitio_roundtrip, bitio_same_widths). *)
 From Coq Require Import ZArith List Bool String Lia.
 Require Import H4.gen.Gen_Comp H4.CompSpec H4.CompRleModel H4.CompRleProofs H4.CompCodecModel H4.CompCodecProofs
-  H4.CompBitioProofs H4.CompBitbufModel H4.CompBitbufProofs.
+  H4.CompBitioProofs H4.CompBitbufModel H4.CompBitbufProofs H4.CompNbitProofs.
 Import ListNotations.
 Local Open Scope Z_scope.
 Notation concat := List.concat.
@@ -68,13 +68,26 @@ Print Assumptions nbit_byte_projection.
 (** n-bit, mask table (complete finite domain: sizes 1,2,4,8 x every start bit x every length): the table built
     by the loop of HCIcnbit_init is the big-endian byte image of the documented field mask
     [ones(len) << (start-len+1)], every entry has the per-byte shape above, the lengths add up to bit_len.
-    PARTIAL with respect to the property: what is missing for "decode (encode v) = nbit_project v" for all values
-    is the lemma that br_read returns the fields bw_write stored (bit-stream re-partitioning, not proved) and
-    the sign-extension step; both are covered by the correspondence run only. *)
+    PARTIAL with respect to the property: together with nbit_byte_projection and nbit_bitstream (below: the decoder
+    reading the encoder's stream gets back exactly the encoder's fields) this covers mask construction, field
+    extraction / re-insertion and the bit stream; what is still missing for "nbit_decode (nbit_encode v) =
+    nbit_project v" as ONE statement is the composition through the control structure of nbit_decode_bytes and
+    the sign-extension step (high bytes 0x00/0xff, sign byte or-ed / and-ed with sign_ext_mask), which rest on
+    the correspondence run (extracted nbit_decode on the library's raw streams vs nbit_project). *)
 Theorem nbit_projection_partial : forall size start len,
   In size [1; 2; 4; 8] -> 0 <= start < 8 * size -> 1 <= len <= start + 1 -> nbit_cfg_case size start len = true.
 Proof. exact nbit_masks_lemma. Qed.
 Print Assumptions nbit_projection_partial.
+
+(** n-bit bit-stream lemma: for every valid configuration and every byte list, reading the stream produced by the
+    n-bit encoder with the widths of the mask table returns exactly the fields the encoder extracted. *)
+Theorem nbit_bitstream : forall size start len se fo bytes,
+  In size [1; 2; 4; 8] -> 0 <= start < 8 * size -> 1 <= len <= start + 1 -> Forall byte bytes ->
+  let c := mk_nbit size start len se fo in
+  let fields := nbit_encode_fields (nbit_mask_info c) (nbit_mask_info c) bytes in
+  br_run (nbit_encode c bytes) (bitr_init (nbit_encode c bytes)) (map (fun w => BOr (fst w)) fields) = Some (map snd fields).
+Proof. exact nbit_bitstream_lemma. Qed.
+Print Assumptions nbit_bitstream.
 
 (** Skipping Huffman.  PARTIAL: (a) from the initial tree every one of the 256 symbols decodes to itself and the
     decoder consumes exactly the code (complete finite domain); (b) lock-step: if the walk returns the encoded
